@@ -85,6 +85,7 @@ func nonSuccessReason(ls LabelSet) (bool, string) {
 
 func checkC13(cx *Ctx, r *Report) {
 	w, fx := cx.W, cx.Fx
+	cx.checkNoTemplateBypass(r)
 	// storage is asked with the request's context (which carries the issuer / tenant in effect): keys, providers and
 	// users are those of this request
 	cx.checkStorageContext(r)
